@@ -338,7 +338,9 @@ impl Argument for Duration {
     /// Song durations in the format MPD expects. Will round to third decimal place.
     fn render(&self, buf: &mut BytesMut) {
         use std::fmt::Write;
-        write!(buf, "{:.3}", self.as_secs_f64()).unwrap();
+        // Round in integer arithmetic, a float cannot hold long durations to the millisecond
+        let millis = (self.as_nanos() + 500_000) / 1_000_000;
+        write!(buf, "{}.{:03}", millis / 1000, millis % 1000).unwrap();
     }
 }
 
